@@ -615,7 +615,7 @@ fn predict_lru(
     let mut decision = None;
     match op {
         Op::Ins(k, w) => {
-            let pw = cfg.pw(w as u32);
+            let pw = cfg.pw(weight_of(w));
             if let Some(p) = r.iter().position(|x| x.0 == k) {
                 r.remove(p);
                 r.push((k, pw));
@@ -800,11 +800,11 @@ pub fn step(cfg: &Cfg, sut: &mut Sut, m: &mut Model, pre: &Snapshot, op: Op, has
         Op::Ins(k, w) => {
             let fresh = !pre_phys.contains_key(&k);
             let km = &mut m.keys[k as usize];
-            let grew = !fresh && cfg.pw(w as u32) > pre_phys[&k].weight;
+            let grew = !fresh && cfg.pw(weight_of(w)) > pre_phys[&k].weight;
             km.ever = true;
             km.has = true;
             km.vid = vid;
-            km.w = w as u32;
+            km.w = weight_of(w);
             km.t_ins = now;
             km.inval = false;
             km.a_true = now;
@@ -814,7 +814,7 @@ pub fn step(cfg: &Cfg, sut: &mut Sut, m: &mut Model, pre: &Snapshot, op: Op, has
             if fresh {
                 km.gen += 1;
             }
-            m.total_w += cfg.pw(w as u32) as u64;
+            m.total_w += cfg.pw(weight_of(w)) as u64;
             if u {
                 m.excess_ok = grew;
             }
@@ -938,7 +938,7 @@ pub fn step(cfg: &Cfg, sut: &mut Sut, m: &mut Model, pre: &Snapshot, op: Op, has
 
     // ---- M-room (C03): a new key whose weight fits always gets in and evicts nothing
     if let Op::Ins(k, w) = op {
-        let pw = cfg.pw(w as u32) as u64;
+        let pw = cfg.pw(weight_of(w)) as u64;
         // Room is computed from the residents the implementation holds. Once
         // maintenance has run (U: every call purges first; S: the previous call was
         // sync()), entries whose deadline has passed or that were invalidated no longer
@@ -1023,9 +1023,30 @@ pub fn step(cfg: &Cfg, sut: &mut Sut, m: &mut Model, pre: &Snapshot, op: Op, has
         }
     }
 
+    // the weight the configured weigher gives each stored value (known from the model when
+    // the entry holds the latest value of its key), else what the implementation stored
+    let true_weight = |e: &EntrySnap| -> u64 {
+        let km = &m.keys[e.key as usize];
+        if km.has && km.vid as u64 == e.value {
+            cfg.pw(km.w) as u64
+        } else {
+            e.weight as u64
+        }
+    };
+    if settled(cfg, quiescent) {
+        for e in &post.entries {
+            if true_weight(e) != e.weight as u64 {
+                viol.push(v(
+                    "C10",
+                    format!("{kdn}:stored-weight!=weigher(value)"),
+                    format!("after {okind}: key {} holds value {} which the weigher weighs {}, but the cache accounts {} for it", e.key, e.value, true_weight(e), e.weight),
+                ));
+            }
+        }
+    }
     // ---- C04: resident weight within capacity
     if let Some(cap) = cfg.cap {
-        let total = sum_w(&post);
+        let total: u64 = post.entries.iter().map(|e| true_weight(e)).sum();
         if settled(cfg, quiescent) && total > cap && !(u && m.excess_ok) {
             viol.push(v(
                 "C04",
@@ -1085,7 +1106,7 @@ pub fn step(cfg: &Cfg, sut: &mut Sut, m: &mut Model, pre: &Snapshot, op: Op, has
             // the shared entry info, then runs maintenance BEFORE queueing its own op
             if let Op::Ins(k, w) = op {
                 if let Some(e) = pre_phys.get(&k) {
-                    if e.admitted && e.weight != cfg.pw(w as u32) && !post_adm.contains_key(&e.info_addr) {
+                    if e.admitted && e.weight != cfg.pw(weight_of(w)) && !post_adm.contains_key(&e.info_addr) {
                         reweighed_victim = true;
                     }
                 }
